@@ -20,6 +20,9 @@ func c13Plan(n, ops, intervalMs, cap int) *driver.Plan {
 func c13Gen(r *driver.Rand, thorough bool) *driver.Plan {
 	ops := driver.Pick(r, 1, 2, 3, 1+r.Intn(8))
 	iv := driver.Pick(r, 10, 100, 1000, 1+r.Intn(40), 15, 25, 250)
+	if r.Chance(1, 8) {
+		iv = driver.Pick(r, 45000, 61000, 240000) // per-minute quotas: any fixed patience inside the stage is shorter
+	}
 	c := driver.Pick(r, 0, 1, 3, r.Intn(10))
 	n := r.Intn(6*ops + 4)
 	if thorough && r.Chance(1, 4) {
